@@ -16,6 +16,10 @@ type RouterRoles struct {
 	ChainCalls []ssa.CallInstruction
 	PubCalls   []ssa.CallInstruction // calls in D through which Publisher.Publish is reached
 	HandlerT   *types.Named          // the private handler struct
+	// when the chain is invoked through a helper: the helper, the chain calls inside it, and its message parameter
+	ChainHelper *ssa.Function
+	ChainInner  []ssa.CallInstruction
+	HelperMsg   *ssa.Parameter
 }
 
 func (c *Check) routerRoles(id string) *RouterRoles {
@@ -61,6 +65,47 @@ func (c *Check) routerRoles(id string) *RouterRoles {
 		}
 		if !cl.Common().IsInvoke() && CalleeFn(cl.Common()) == nil && FromParam(r.ChainParam)(cl.Common().Value) {
 			r.ChainCalls = append(r.ChainCalls, cl)
+		}
+	}
+	if len(r.ChainCalls) == 0 {
+		// the chain may be invoked through an in-package helper taking (chain, msg)
+		for _, cl := range CallsIn(D) {
+			H := CalleeFn(cl.Common())
+			if H == nil || H.Pkg != D.Pkg || len(H.Blocks) == 0 {
+				continue
+			}
+			if _, isCall := cl.(*ssa.Call); !isCall {
+				continue
+			}
+			var hChain, hMsg *ssa.Parameter
+			for i, a := range cl.Common().Args {
+				if i >= len(H.Params) {
+					break
+				}
+				if FromParam(r.ChainParam)(a) {
+					hChain = H.Params[i]
+				}
+				if FromParam(r.MsgParam)(a) {
+					hMsg = H.Params[i]
+				}
+			}
+			rs := H.Signature.Results()
+			if hChain == nil || hMsg == nil || rs.Len() != 2 || !IsErrorType(rs.At(1).Type()) {
+				continue
+			}
+			var inner []ssa.CallInstruction
+			for _, f := range WithAnon(H) {
+				for _, c2 := range CallsIn(f) {
+					if !c2.Common().IsInvoke() && CalleeFn(c2.Common()) == nil && AllOrigins(c2.Common().Value, IsParam(hChain)) {
+						inner = append(inner, c2)
+					}
+				}
+			}
+			if len(inner) == 0 {
+				continue
+			}
+			r.ChainCalls = append(r.ChainCalls, cl)
+			r.ChainHelper, r.ChainInner, r.HelperMsg = H, inner, hMsg
 		}
 	}
 	r.PubCalls = CallsLeadingTo(D, 3, nPublish)
